@@ -38,6 +38,89 @@ RG = 'src/mbi/region_graph.py'
 FG = 'src/mbi/factor_graph.py'
 
 
+def check_gbp_damping(ctx, gbp):
+    """The non-convex GBP oracle mixes old and new messages half and half - fixed weights, so that `iters` sweeps reach the fixed point on a
+    junction-tree-structured region graph whatever the engine's other settings are.  Weights read from `self.damping` make it depend on a
+    knob of the CONVEX oracle that mirror_descent_auto raises towards 0.9 after a loss increase (and that may be 1.0: messages never move)."""
+    from ..normalise import Defs, expand
+    n = 0
+    for a in [x for x in ast.walk(gbp.node) if isinstance(x, ast.Assign) and len(x.targets) == 1 and isinstance(x.targets[0], ast.Subscript)
+              and U(x.targets[0].value) in ('self.messages', 'messages')]:
+        par = getattr(a, '_parent', None)
+        blk = next((b for b in (getattr(par, 'body', None), getattr(par, 'orelse', None)) if isinstance(b, list) and a in b), [a])
+        defs = Defs(blk[:blk.index(a)] if a in blk else [])
+        v = expand(a.value, defs)
+        if not (isinstance(v, ast.BinOp) and isinstance(v.op, ast.Add) and all(isinstance(t, ast.BinOp) and isinstance(t.op, ast.Mult) for t in (v.left, v.right))):
+            continue
+        own = U(a.targets[0]).replace(' ', '')
+        coefs = []
+        for t in (v.left, v.right):
+            c, x = (t.left, t.right) if not isinstance(t.left, ast.Subscript) else (t.right, t.left)
+            coefs.append((c, U(x).replace(' ', '') == own))
+        if sum(1 for _, is_old in coefs if is_old) != 1:
+            continue
+        n += 1
+        fdefs = Defs([s_ for s_ in ast.walk(gbp.node) if isinstance(s_, ast.Assign) and isinstance(s_.targets[0], ast.Name)])
+        texts = [U(expand(c, fdefs)).replace(' ', '') for c, _ in coefs]
+        lits = []
+        for t in texts:
+            try:
+                lits.append(float(eval(t, {'__builtins__': {}}, {})) if re.fullmatch(r'[0-9.+\-*/()e]+', t) else None)
+            except Exception:
+                lits.append(None)
+        if None not in lits:
+            old_w = [w for w, (_, is_old) in zip(lits, coefs) if is_old][0]
+            ok = abs(sum(lits) - 1.0) < 1e-12 and 0 <= old_w < 1
+            ctx.ob('gbp-damping', gbp, a, ok, 'messages are mixed with the fixed weights %s (old) / %s (new)' % (old_w, sum(lits) - old_w), construct='damping of the GBP sweep')
+        elif any('self.damping' in t for t in texts):
+            ctx.ob('gbp-damping', gbp, a, False, 'the GBP sweep mixes old and new messages with weights read from self.damping (`%s`): the knob of the convex oracle, raised towards 0.9 by '
+                   'mirror_descent_auto and free to be 1.0 (messages never move) - the sweeps no longer reach the fixed point in `iters` rounds on a junction tree'
+                   % ' / '.join(texts)[:60], construct='damping of the GBP sweep')
+        else:
+            raise AnalysisError('generalized_belief_propagation: message mixing weights `%s` are in no recognised form' % ' / '.join(texts)[:80])
+    ctx.floor('damped message updates in generalized_belief_propagation', n, 1)
+
+
+def check_project_rescaled(ctx):
+    """FactorGraph.project answers an in-clique request from the stored clique marginals: their sum, RESCALED to the current self.total
+    (`ans * (self.total / ans.sum())`).  The plain average `ans / count` carries the total the marginals were fitted with - self.total is
+    re-assigned on a re-used oracle (LocalInference._setup does so), and the other branch of the same method follows the new total."""
+    if not ctx.repo.has_func(FG, 'FactorGraph.project'):
+        raise AnalysisError('anchor vanished: FactorGraph.project')
+    fi = ctx.repo.nfunc(FG, 'FactorGraph.project')
+    ctx.analysed(fi)
+    accs = {a.targets[0].id for a in ast.walk(fi.node) if isinstance(a, ast.Assign) and len(a.targets) == 1 and isinstance(a.targets[0], ast.Name)
+            and isinstance(a.value, ast.Call) and U(a.value.func).endswith('Factor.zeros')}
+    accs = {x for x in accs if any(isinstance(u, ast.AugAssign) and U(u.target) == x for u in ast.walk(fi.node))}
+    if not accs:
+        return
+    n = 0
+    for r in [x for x in ast.walk(fi.node) if isinstance(x, ast.Return) and x.value is not None]:
+        v = r.value
+        if isinstance(v, ast.Name):
+            ds = [a.value for a in ast.walk(fi.node) if isinstance(a, ast.Assign) and len(a.targets) == 1 and U(a.targets[0]) == v.id and not
+                  (isinstance(a.value, ast.Call) and U(a.value.func).endswith('Factor.zeros'))]
+            if len(ds) == 1:
+                v = ds[0]
+        used = [x for x in accs if any(isinstance(nm, ast.Name) and nm.id == x for nm in ast.walk(v))]
+        if not used:
+            continue
+        A = used[0]
+        t = U(v).replace(' ', '')
+        n += 1
+        good = {'%s*(self.total/%s.sum())' % (A, A), '%s*self.total/%s.sum()' % (A, A), '%s/%s.sum()*self.total' % (A, A), 'self.total*%s/%s.sum()' % (A, A),
+                '%s*(self.total/%s.values.sum())' % (A, A), '(self.total/%s.sum())*%s' % (A, A), 'self.total/%s.sum()*%s' % (A, A)}
+        if t in good:
+            ctx.ob('project-rescaled', fi, r, True, 'the in-clique answer is the sum of the stored marginals rescaled to self.total', construct='in-clique answer of FactorGraph.project')
+        elif 'self.total' not in t and re.fullmatch(re.escape(A) + r'/\w+|' + re.escape(A) + r'\*\(1(\.0)?/\w+\)', t):
+            ctx.ob('project-rescaled', fi, r, False, 'the in-clique answer is the plain average `%s`: it sums to the total the stored marginals were fitted with, not to the '
+                   'current self.total (re-assigned on a re-used oracle), and disagrees with the out-of-clique branch of the same method' % U(v)[:50],
+                   construct='in-clique answer of FactorGraph.project')
+        else:
+            raise AnalysisError('FactorGraph.project: the in-clique answer `%s` is in no recognised form' % U(v)[:70])
+    ctx.floor('in-clique answers of FactorGraph.project', n, 1)
+
+
 def check_total_stored(ctx):
     """the oracle normalises to self.total: the constructor must store the caller's total as it is.  A `total=None` default meaning
     "unknown" has to be tested by comparison with None - truthiness also replaces the legal total 0 (a model of no records)."""
@@ -123,6 +206,8 @@ def run(ctx):
             and U(v.args[2]) == pot
         ctx.ob('returns-clique-marginals', lbp, r, ok,
                'must return self.clique_marginals(<messages>, <messages>, %s); returns `%s`' % (pot, U(v) if v is not None else None))
+    check_project_rescaled(ctx)
+    check_gbp_damping(ctx, gbp)
     check_identity_compares(ctx)
     check_on_copies(ctx)
     check_sweep_termination(ctx)
